@@ -39,6 +39,8 @@ def run(ctx, rep):
         if rule == 'C18.2':
             rep.ob(rule, site, ok, detail)
     c04.phase(d, rep, 'C18.3')
+    from . import c02
+    c02.drop_rule(ctx.lib, rep, 'C18.4', 'unused')
     # error returns are only reachable with backend faults: the same rule on the fault-injected closure
     fd = c04.closure_cached(ctx.lib, faults=True)
     for (rule, site), (ok, detail) in sorted(fd.obl.items()):
